@@ -1,0 +1,36 @@
+//go:build verif
+
+package dispatch
+
+import (
+	"context"
+	"log/slog"
+
+	"github.com/prometheus/common/model"
+
+	"github.com/prometheus/alertmanager/alert"
+	"github.com/prometheus/alertmanager/eventrecorder"
+)
+
+// VerifGroup gives the verification harness direct access to the insert path
+// of one aggregation group (the code the ingestion workers run concurrently).
+type VerifGroup struct{ ag *aggrGroup }
+
+// NewVerifGroup creates an aggregation group of the route for the given group
+// labels; the group is not run (no flushes).
+func NewVerifGroup(route *Route, groupLabels model.LabelSet) *VerifGroup {
+	return &VerifGroup{ag: newAggrGroup(context.Background(), groupLabels, route, nil,
+		eventrecorder.NopRecorder(), slog.New(slog.DiscardHandler), nil)}
+}
+
+// Insert is aggrGroup.insert.
+func (g *VerifGroup) Insert(a *alert.Alert) bool { return g.ag.insert(context.Background(), a) }
+
+// Get returns what the group's store holds for the fingerprint.
+func (g *VerifGroup) Get(fp model.Fingerprint) (*alert.Alert, error) { return g.ag.alerts.Get(fp) }
+
+// Stop releases the group's context and timer.
+func (g *VerifGroup) Stop() {
+	g.ag.cancel()
+	g.ag.next.Stop()
+}
